@@ -160,6 +160,13 @@ class BloomSystem(System):
             else:
                 other = BloomFilter(cfg["n"], cfg["p"], hash_function=hf) if empty else self._other(cfg, hf, keys)
             r = call(f.union, other)
+            if len(ev) > 1 and ev[1] == "near":
+                # either direction: if a filter comes back at all it must still report every key of this filter
+                lost = []
+                for res in (r, call(other.union, f)):
+                    if res[0] == "ok" and res[1] is not None:
+                        lost += [i for i in m["keys"] if not call(res[1].check, keys[i])[1:] == (True,)]
+                return ("ok", "near", sorted(set(lost)))
             if r[0] == "ok" and r[1] is not None:
                 st.impl = r[1]
                 last = len(keys) - 1
@@ -208,7 +215,11 @@ class BloomSystem(System):
             for p in ("C01", "C05", "C14", "C19"):
                 bad(p, "bloom.event_returns", {"ev": ev, "obs": obs})
             return out
-        if ev[0] == "union" and obs[1] is None and not (len(ev) > 1 and ev[1] == "near"):
+        if ev[0] == "union" and obs[1] == "near":
+            if obs[2]:
+                bad("C01", "bloom.union_result_reports_added_keys", {"ev": ev, "lost_key_indices": obs[2]})
+            return out
+        if ev[0] == "union" and obs[1] is None:
             bad("C01", "bloom.union_of_compatible_is_filter", {"ev": ev})
         # C01: bits are only ever added (except by clear)
         if ev[0] != "clear" and "C01" in props:
